@@ -61,7 +61,8 @@ type Node struct {
 	Vs  [][3]string `json:"vs"` // name, lit|ref, value
 	Ds  [][3]string `json:"ds"`
 	Ps  bool        `json:"ps"`
-	X   string      `json:"x"` // none | hook | cons | chan
+	Pu  string      `json:"pu"` // "" | name | var | cons | bind | conn | load: the field with an unterminated "{{"
+	X   string      `json:"x"`  // none | hook | cons | chan | conn | bind | bindp
 	Sub string      `json:"sub"`
 	For []ForSpec   `json:"for"`
 }
@@ -186,6 +187,9 @@ func render(w *strings.Builder, T []Node, i int, ind string, listItem bool) {
 	if n.Ps {
 		name += "-{{ nosuch }}"
 	}
+	if n.Pu == "name" {
+		name += "-{{ flag }" // unterminated
+	}
 	w.WriteString(pre + "name: " + yq(name) + "\n")
 	switch n.En[0] {
 	case "T":
@@ -224,17 +228,55 @@ func render(w *strings.Builder, T []Node, i int, ind string, listItem bool) {
 		w.WriteString(ind + "  var: " + f.Var + "\n")
 	}
 	vmap(w, ind, "defaults", n.Ds)
-	vmap(w, ind, "vars", n.Vs)
+	vs := n.Vs
+	if n.Pu == "var" {
+		vs = append(append([][3]string{}, vs...), [3]string{"zz", "lit", "{{ flag"})
+	}
+	vmap(w, ind, "vars", vs)
+	// constraints / connect / bind declarations: from the extra x and, last, the unterminated one (pu)
+	cons, conn, bind := make([]string, 0), make([]string, 0), make([]string, 0)
 	switch n.X {
 	case "cons":
-		w.WriteString(ind + "constraints:\n")
-		w.WriteString(ind + "  - attribute: machine_id\n")
-		w.WriteString(ind + "    value: " + yq("c"+params(n.Np)) + "\n")
+		cons = append(cons, "c"+params(n.Np))
 	case "chan":
+		conn = append(conn, "{{ Parent().Path }}.peer:in")
+	case "conn": // a target that depends on the iteration variable(s)
+		conn = append(conn, "peer"+params(n.Np)+":in")
+	case "bind": // a global alias that depends on the iteration variable(s)
+		bind = append(bind, "g"+params(n.Np))
+	case "bindp":
+		bind = append(bind, "data-{{ Parent().Name }}")
+	}
+	switch n.Pu {
+	case "cons":
+		cons = append(cons, "{{ host")
+	case "conn":
+		conn = append(conn, "tcp://{{ host:1")
+	case "bind":
+		bind = append(bind, "g-{{ it")
+	}
+	if len(cons) > 0 {
+		w.WriteString(ind + "constraints:\n")
+		for _, v := range cons {
+			w.WriteString(ind + "  - attribute: machine_id\n")
+			w.WriteString(ind + "    value: " + yq(v) + "\n")
+		}
+	}
+	if len(conn) > 0 {
 		w.WriteString(ind + "connect:\n")
-		w.WriteString(ind + "  - name: out\n")
-		w.WriteString(ind + "    type: push\n")
-		w.WriteString(ind + "    target: " + yq("{{ Parent().Path }}.peer:in") + "\n")
+		for j, v := range conn {
+			w.WriteString(ind + "  - name: out" + strconv.Itoa(j) + "\n")
+			w.WriteString(ind + "    type: push\n")
+			w.WriteString(ind + "    target: " + yq(v) + "\n")
+		}
+	}
+	if len(bind) > 0 {
+		w.WriteString(ind + "bind:\n")
+		for j, v := range bind {
+			w.WriteString(ind + "  - name: in" + strconv.Itoa(j) + "\n")
+			w.WriteString(ind + "    type: pull\n")
+			w.WriteString(ind + "    global: " + yq(v) + "\n")
+		}
 	}
 	switch n.K {
 	case "agg":
@@ -249,7 +291,11 @@ func render(w *strings.Builder, T []Node, i int, ind string, listItem bool) {
 		}
 	case "task":
 		w.WriteString(ind + "task:\n")
-		w.WriteString(ind + "  load: cls\n")
+		if n.Pu == "load" {
+			w.WriteString(ind + "  load: " + yq("cls-{{ flag") + "\n")
+		} else {
+			w.WriteString(ind + "  load: cls\n")
+		}
 		if n.X == "hook" {
 			w.WriteString(ind + "  trigger: before_START\n")
 			w.WriteString(ind + "  critical: " + spellBool(false, spelling) + "\n")
@@ -286,6 +332,7 @@ type PNode struct {
 	Tr []interface{} `json:"tr"`
 	Cv []string      `json:"cv"`
 	Cn []string      `json:"cn"`
+	Bd []string      `json:"bd"` // `global` aliases of the bind declarations
 	Ch []*PNode      `json:"ch"`
 }
 
@@ -304,7 +351,7 @@ func project(d *workflow.VerifWLNode) []*PNode {
 		k = "inc"
 	}
 	n := &PNode{K: k, N: d.Name, P: d.Path, St: make([][2]string, 0), Tr: make([]interface{}, 0),
-		Cv: make([]string, 0), Cn: make([]string, 0), Ch: make([]*PNode, 0)}
+		Cv: make([]string, 0), Cn: make([]string, 0), Bd: make([]string, 0), Ch: make([]*PNode, 0)}
 	for _, key := range probe {
 		if v, ok := d.Stack[key]; ok {
 			n.St = append(n.St, [2]string{key, v})
@@ -318,6 +365,9 @@ func project(d *workflow.VerifWLNode) []*PNode {
 	}
 	for _, c := range d.Connect {
 		n.Cn = append(n.Cn, c.Target)
+	}
+	for _, c := range d.Bind {
+		n.Bd = append(n.Bd, c.Global)
 	}
 	for _, c := range d.Children {
 		n.Ch = append(n.Ch, project(c)...)
@@ -335,6 +385,9 @@ func compact(n *PNode) string {
 	}
 	if len(n.Cn) > 0 {
 		s += fmt.Sprintf("cn%v", n.Cn)
+	}
+	if len(n.Bd) > 0 {
+		s += fmt.Sprintf("bd%v", n.Bd)
 	}
 	if len(n.Ch) > 0 {
 		parts := make([]string, 0)
